@@ -191,11 +191,23 @@ def entries_independent(ctx, rule):
         # what decides this entry's fate may mention the entry, the call's arguments and values
         # computed from them - not what earlier iterations left behind (variables carried round
         # the loop, the set of entries counted so far) and not module-level state
-        carried = [f for f in bp.facts if f[0] in ("eq", "ne", "cmp", "notcmp", "truthy", "falsy", "ret", "is", "isnot", "in", "notin") and _loop_carried(f, m.G) and not (early_accept and lenG is not None and mentions(f, lenG))]
+        carried = [f for f in bp.facts if f[0] in ("eq", "ne", "cmp", "notcmp", "truthy", "falsy", "ret", "is", "isnot", "in", "notin") and _loop_carried(f, m.G) and not _accept_gate_test(f, lenG, m.threshold)]
         if carried:
             unjust += 1
             why.append("the decision depends on what earlier entries left behind: %s" % show_fact(carried[0])[:120])
     ctx.ob(rule, "entries-independent", fn_site(eng, m.sm).loc(), "each signature entry is counted or skipped on its own merits (%d loop-body paths, %d unjustified skips/aborts%s): removing non-counting entries cannot change the counted set" % (len(m.body), unjust, ": " + "; ".join(sorted(set(why)))[:300] if why else ""), unjust == 0)
+
+
+def _accept_gate_test(f, lenG, threshold):
+    """a comparison of the number of entries counted so far with the threshold (the test of an
+    early exit once enough have been counted): it decides whether to go on at all, not what
+    happens to an entry"""
+    from sa.terms import linear_cmp
+
+    if lenG is None or f[0] != "cmp":
+        return False
+    lf = linear_cmp(f[1], f[2], f[3])
+    return lf is not None and {k for k, _v in lf[1]} <= {lenG, threshold}
 
 
 def _loop_carried(f, G):
